@@ -130,7 +130,7 @@ def audit_axioms(pid):
     names = props.PROPS[pid].get("theorems", [])
     if not names:
         return 0, 0, {}
-    mods = sorted(set(props.PROPS[pid].get("modules", ["RProofs"])))
+    mods = sorted(set(props.PROPS[pid].get("modules", props.DEFAULT_MODULES)))
     src = "\n".join("import %s" % m for m in mods) + "\n" + "\n".join("#print axioms %s" % n for n in names) + "\n"
     os.makedirs(WORK, exist_ok=True)
     fn = os.path.join(WORK, "audit_%s_%d.lean" % (pid, os.getpid()))
@@ -299,16 +299,17 @@ def check_property(pid, tier, seed, replay_only=None):
     except BuildError as e:
         return finish(pid, tier, seed, t0, [], [], {"build_error": e.stage, "log": e.log[-1500:]}, proof_broken="build:" + e.stage,
                       obligations=(len(P.get("theorems", [])), 0), cov={})
+    # the model and the checker first (needed for any correspondence run), then this property's proof modules only,
+    # so that a proof broken by a change to /repo is attributed to the properties that depend on it
     try:
-        build_lean()
+        build_lean(("RModel", "rdriver"))
+    except BuildError as e2:
+        return finish(pid, tier, seed, t0, [], [], {"build_error": "lake", "log": e2.log[-1500:]},
+                      proof_broken="model does not build: " + e2.log[-800:], obligations=(len(P.get("theorems", [])), 0), cov={})
+    try:
+        build_lean(tuple(P.get("modules", props.DEFAULT_MODULES)))
     except BuildError as e:
-        proof_broken = "lake build failed: " + e.log[-1200:]
-        # the driver may still be buildable without the proofs: try model + driver only
-        try:
-            build_lean(("RModel", "rdriver"))
-        except BuildError as e2:
-            return finish(pid, tier, seed, t0, [], [], {"build_error": "lake", "log": e2.log[-1500:]},
-                          proof_broken="model does not build: " + e2.log[-800:], obligations=(len(P.get("theorems", [])), 0), cov={})
+        proof_broken = "lake build of the proof modules failed: " + e.log[-1200:]
     hits = audit_sources()
     if hits:
         proof_broken = (proof_broken or "") + " forbidden constructs: " + "; ".join(hits[:5])
